@@ -26,6 +26,8 @@ pub struct OracleState {
     pub c14: crate::c14::State,
     pub c11: crate::c11::State,
     pub c19: crate::c19::State,
+    /// Instance of the CA whose deletion the C19 oracle is to judge.
+    pub c19_deleted_inst: Option<usize>,
 }
 
 /// Task names that recur for ever at short intervals; the pump does not
@@ -54,6 +56,9 @@ pub fn pump_stepwise(r: &mut Runner) -> Guarded<bool> {
             for idx in 0..r.world.insts.len() {
                 if !r.world.insts[idx].is_up() {
                     continue
+                }
+                if r.oracles.c19 {
+                    crate::c19::before_step(r);
                 }
                 let claimed = match guarded(|| {
                     r.world.insts[idx].run_scheduler_step()
@@ -179,6 +184,7 @@ pub fn after_task(r: &mut Runner, _inst: usize) {
             r.ext.c19.parent_outcome.clear();
         }
         crate::c19::observe(r, &format!("after task {task}"));
+        crate::c19::entitlements_after_task(r, &task, _inst);
     }
 }
 
